@@ -350,3 +350,138 @@ def with_defaults(spec, v, mode):
         elif d is not None and mode == "all":
             out[fn] = d
     return out
+
+
+# --------------------------------------------------------------------------
+# C19
+def _omitted_ok(env, spec, v, d, where=""):
+    """fields whose value equals their DECLARED default are left out of the dictionary form"""
+    ok = True
+    for fn, ft, dflt in spec[2]:
+        pn = HY.pyname(spec, fn)
+        if HY.is_h(ft):
+            if isinstance(d.get(pn), dict):
+                ok = _omitted_ok(env, ft, v[fn], d[pn], where + pn + ".") and ok
+        elif dflt is not None and ft[0] == "scalar":
+            if V.same(V.expected(ft, v.get(fn, dflt)), V.expected(ft, dflt)):
+                ok = env.check(pn not in d, f"C19 a field equal to its declared default is omitted from the dictionary ({where}{pn})") and ok
+    return ok
+
+
+def sc_c19h(env, spec, v, cfg):
+    v = strip_refs(spec, v) if cfg.get("refs") != "value" else v
+    buf, h, nbL, nbR = build(env, spec, v, cfg)
+    full = HY_full(spec, v)
+    exp = HY.expected(spec, v)
+    m = env.mark()
+    kw = {} if cfg.get("copy_to_cpu", True) else dict(copy_to_cpu=False)
+    ok, d = _guard(env, "C19 to_dict()", lambda: h.to_dict(**kw))
+    if not ok:
+        env.reach()
+        return
+    env.check(isinstance(d, dict) and d.get("__class__") == type(h).__name__, "C19 the dictionary names the class")
+    _omitted_ok(env, spec, full, d)
+    hread_ok(env, spec, h, exp, "C19 to_dict() leaves the object unchanged")
+    buf2 = env.fresh(0, tag="d", alignment=cfg.get("alignment", 1)) if cfg.get("second") == "grown" else make_buffer(env, dict(cfg, placement="default" if cfg["placement"] == "explicit" else cfg["placement"]), tag="d")
+    ok, h2 = _guard(env, "C19 from_dict(to_dict())", lambda: type(h).from_dict(d, _buffer=buf2))
+    if ok:
+        env.check(type(h2) is type(h), "C19 from_dict builds an object of the class")
+        hread_ok(env, spec, h2, exp, "C19 the object rebuilt from the dictionary form is equal to the original")
+        nested_on_field(env, spec, h2, "in the rebuilt object")
+        # and once more from its own dictionary (the form is stable)
+        ok, d2 = _guard(env, "C19 to_dict() of the rebuilt object", lambda: h2.to_dict(**kw))
+        if ok:
+            env.check(sorted(d2.keys()) == sorted(d.keys()), "C19 the rebuilt object has the same dictionary keys")
+    neighbours_ok(env, nbL, nbR, "by to_dict/from_dict")
+    env.reach()
+
+
+def sc_c19j(env, t, v, cfg):
+    B = wmode.construct(env, t, v, cfg)
+    ok, j = _guard(env, "C19 _to_json()", lambda: B.obj._to_json())
+    if not ok:
+        env.reach()
+        return
+    wmode.read_ok(env, t, B.obj, B.exp, "C19 _to_json() leaves the object unchanged")
+    buf2 = env.fresh(0, tag="d", alignment=cfg.get("alignment", 1)) if cfg.get("second") == "grown" else make_buffer(env, dict(cfg, placement="default" if cfg["placement"] in ("explicit", "context") else cfg["placement"]), tag="d")
+    ok, y = _guard(env, "C19 constructing the type from the JSON form", lambda: tg.build(t)(j, _buffer=buf2))
+    if ok:
+        wmode.read_ok(env, t, y, B.exp, "C19 the object built from the JSON form reproduces the original")
+    wmode.neighbours_intact(env, B, "by _to_json")
+    env.reach()
+
+
+wmode.SCENARIOS["c19h"] = sc_c19h
+wmode.SCENARIOS["c19j"] = sc_c19j
+
+
+# --------------------------------------------------------------------------
+# C20 (hybrid classes)
+def sc_c20h(env, spec, v, cfg):
+    v = strip_refs(spec, v)
+    buf, h, nbL, nbR = build(env, spec, v, cfg)
+    exp = HY.expected(spec, v)
+    v2 = variant_of(spec, HY_full(spec, v), 2)
+    h2 = HY.make_h(spec, v2, _buffer=buf)
+    exp2 = HY.expected(spec, v2)
+    m0 = env.mark()
+    try:
+        c1, c2, cn = env.pickle_roundtrip([h, h2, nbL])
+    except BaseException as ex:
+        if not isinstance(ex, Exception):
+            raise
+        env.check(False, f"C20 pickling/unpickling hybrid objects raised {type(ex).__name__}: {str(ex)[:80]}")
+        env.reach()
+        return
+    env.no_stores_since(m0, "C20 pickling does not modify the originals' buffer")
+    env.check(type(c1) is type(h), "C20 the unpickled object is of the hybrid class")
+    env.check(c1._buffer is not buf, "C20 the unpickled hybrid object lives in a buffer of its own")
+    env.check(c1._buffer is c2._buffer and c1._buffer is cn._buffer, "C20 hybrid objects pickled together that shared a buffer still share one")
+    hread_ok(env, spec, c1, exp, "C20 the unpickled hybrid object has the same value at every field")
+    hread_ok(env, spec, c2, exp2, "C20 the second unpickled hybrid object has the same value at every field")
+    nested_on_field(env, spec, c1, "after unpickling")
+    env.check(env.eq(c1._xobject._offset, h._xobject._offset), "C20 the unpickled hybrid object sits at the same offset of the restored buffer")
+    env.check(env.eq(c1._xobject._size, h._xobject._size), "C20 the unpickled hybrid object reports the size of the original")
+    # further reads and writes
+    cur = HY_full(spec, v)
+    n = 0
+    for path, lt, lv in HY.hleaves(spec, cur):
+        nv = fitting_value(lt, lv, 1)
+        if nv is None:
+            continue
+        n += 1
+        if n > 3:
+            break
+        m = env.mark()
+        ok, _ = _guard(env, f"C20 assignment at {path} of the unpickled hybrid object", HY.hset, spec, c1, path, nv)
+        if ok:
+            env.frame(m, [(c1._buffer, c1._xobject._offset, c1._xobject._size)], f"C20 a write through the unpickled hybrid object touches only that object (leaf {path})")
+            cur = HY.vset(cur, path, nv)
+    hread_ok(env, spec, c1, HY.expected(spec, cur), "C20 the unpickled hybrid object reads back what was written through it")
+    ok2, raw = _guard(env, "C20 reading the underlying struct of the unpickled hybrid object", V.readback, HY.xo_ast(spec), c1._xobject)
+    if ok2:
+        d = V.diff(raw, HY.expected(spec, cur))
+        env.check(d is None, "C20 the underlying buffer data of the unpickled hybrid object agree with its attributes" + (f": {d}" if d else ""))
+    hread_ok(env, spec, h, exp, "C20 the original hybrid object is unaffected by writes through the unpickled one")
+    hread_ok(env, spec, c2, exp2, "C20 the second unpickled hybrid object is unaffected by writes through the first")
+    try:
+        extra = NEIGHBOUR(NB_R, _buffer=c1._buffer)
+    except BaseException as ex:
+        if not isinstance(ex, Exception):
+            raise
+        env.check(False, f"C20 allocating in the restored buffer raised {type(ex).__name__}: {str(ex)[:80]}")
+        env.reach()
+        return
+    ex_ext = (extra._offset, extra._size)
+    for c, nm in ((c1, "first"), (c2, "second")):
+        env.check(disjoint_ok(env, ex_ext, (c._xobject._offset, c._xobject._size)), f"C20 an object allocated in the restored buffer does not overlap the {nm} unpickled hybrid object")
+    env.check(disjoint_ok(env, ex_ext, (cn._offset, cn._size)), "C20 an object allocated in the restored buffer does not overlap the unpickled array")
+    hread_ok(env, spec, c1, HY.expected(spec, cur), "C20 the unpickled hybrid object is intact after an allocation in the restored buffer")
+    hread_ok(env, spec, c2, exp2, "C20 the second unpickled hybrid object is intact after an allocation in the restored buffer")
+    ok, cc = _guard(env, "C20 copying the unpickled hybrid object", lambda: c2.copy(_buffer=env.fresh(0, tag="cp")))
+    if ok:
+        hread_ok(env, spec, cc, exp2, "C20 a copy made from the unpickled hybrid object has its value")
+    env.reach()
+
+
+wmode.SCENARIOS["c20h"] = sc_c20h
